@@ -124,6 +124,22 @@ GEN.update({
                  "-fill", "Encrypt:random.MustRand=rand", "-apply", "Encrypt:stream.XORKeyStream=ctr",
                  "-apply", "Decrypt:stream.XORKeyStream=ctr"],
     },
+    # internal/aead/aesgcmsiv.go whole functions: the AES-GCM-SIV counter mode aesCTR (32-bit LE counter with wrap, partial last
+    # block), computeTag, deriveKeys (local closure inlined), computePolyval, Decrypt.  AES is the parameter `aes key`, a cipher
+    # object is represented by its key, tink-go's POLYVAL object is an abstract object.  Encrypt (appends into cap(dst)) is not covered.
+    "GlueGcmSiv": {
+        "owner": ["C01", "C02"], "tool": "gluetr",
+        "args": ["-ns", "TinkVerif.Gen.GlueGcmSiv",
+                 "-pkg", "internal/aead", "-sub", "GcmsivFull", "-recv", "AESGCMSIV", "-repr", "crypto/cipher.Block=Bytes",
+                 "-abs", "github.com/tink-crypto/tink-go/v2/internal/aead.Polyval=S_pv",
+                 "-consts", "AESGCMSIVNonceSize,AESGCMSIVTagSize,aesgcmsivBlockSize,aesgcmsivPolyvalSize,maxAESGCMSIVKeySize",
+                 "-funcs", "aesCTR,computeTag,deriveKeys,computePolyval,Decrypt",
+                 "-ctor", "aesCTR:aes.NewCipher=0", "-block", "aesCTR:block.Encrypt=aes",
+                 "-ctor", "computeTag:aes.NewCipher=0", "-block", "computeTag:block.Encrypt=aes",
+                 "-block", "deriveKeys:a.block.Encrypt=aes",
+                 "-opaque", "computePolyval:NewPolyval=pvNew", "-mutate", "computePolyval:p.Update=pvUpdate",
+                 "-opaque", "computePolyval:p.Finish=pvFinish"],
+    },
     # encrypt-then-MAC framing, whole functions: aead/aesctrhmac fullAEAD and aead/subtle EncryptThenAuthenticate
     "GlueEtm": {
         "owner": ["C01", "C02"], "tool": "gluetr",
@@ -162,6 +178,25 @@ GEN.update({
                  "-fill", "GetRandomBytes:random.MustRand=rand", "-fill", "GetRandomUint32:random.MustRand=rand",
                  "-pkg", "secretdata", "-sub", "Secretdata", "-funcs", "NewBytesFromRand", "-fill", "NewBytesFromRand:rand.Read=rand"],
     },
+    # keyset/validation.go Validate / validateKey / ValidateKeyVersion and keyset/handle.go hasSecrets, whole functions: the proto
+    # structs are records of the fields the code reads, the duplicate-id map is a set, every key position is examined
+    "GlueKeyset": {
+        "owner": ["C13", "C14"], "tool": "gluetr",
+        "args": ["-ns", "TinkVerif.Gen.GlueKeyset", "-pkg", "keyset", "-sub", "KeysetGo",
+                 "-record", "tink_go_proto.Keyset_Key=KeyId,Status,OutputPrefixType,KeyData,KeyData.KeyMaterialType",
+                 "-record", "tink_go_proto.Keyset=PrimaryKeyId,Key",
+                 "-consts", "tinkpb.KeyStatusType_ENABLED,tinkpb.KeyStatusType_DISABLED,tinkpb.KeyStatusType_DESTROYED,"
+                            "tinkpb.KeyData_UNKNOWN_KEYMATERIAL,tinkpb.KeyData_SYMMETRIC,tinkpb.KeyData_ASYMMETRIC_PRIVATE,"
+                            "tinkpb.KeyData_ASYMMETRIC_PUBLIC,tinkpb.KeyData_REMOTE",
+                 "-funcs", "ValidateKeyVersion,validateKey,Validate,hasSecrets"],
+    },
+    # keyset/manager.go newRandomKeyID: the redraw loop (stateful: the id set and the random source are state)
+    "GlueManagerId": {
+        "owner": ["C11", "C20"], "tool": "gluetr",
+        "args": ["-ns", "TinkVerif.Gen.GlueManagerId", "-pkg", "keyset", "-sub", "ManagerGo", "-recv", "Manager",
+                 "-stateful", "newRandomKeyID", "-extern", "newRandomKeyID:random.GetRandomUint32=draw@tape:value",
+                 "-funcs", "newRandomKeyID"],
+    },
     # MAC wrappers, whole functions: LEGACY suffix, prefix framing, tag truncation, parameter guards
     "GlueMacWrap": {
         "owner": ["C04"], "tool": "gluetr",
@@ -198,8 +233,13 @@ GEN.update({
     "GlueHpke": {
         "owner": ["C06"], "tool": "gluetr",
         "args": ["-ns", "TinkVerif.Gen.GlueHpke",
-                 "-pkg", "hybrid/internal/hpke", "-sub", "HpkeGo", "-consts", "hpkeV1",
-                 "-funcs", "kemSuiteID,hpkeSuiteID,keyScheduleContext,labelIKM,labelInfo"],
+                 "-pkg", "hybrid/internal/hpke", "-sub", "HpkeGo", "-consts", "hpkeV1,baseMode", "-vars", "emptySalt,emptyIKM",
+                 "-funcs", "kemSuiteID,hpkeSuiteID,keyScheduleContext,labelIKM,labelInfo,createContext,computeNonce",
+                 # whole createContext (RFC 9180 key schedule) and computeNonce; the KEM/KDF/AEAD objects and big.Int are parameters
+                 "-opaque", "createContext:kem.id=kemID", "-opaque", "createContext:kdf.id=kdfID", "-opaque", "createContext:aead.id=aeadID",
+                 "-opaque", "createContext:aead.keyLength=keyLen", "-opaque", "createContext:aead.nonceLength=nonceLen",
+                 "-opaque", "createContext:kdf.labeledExtract=extract", "-opaque", "createContext:kdf.labeledExpand=expand",
+                 "-opaque", "computeNonce:c.sequenceNumber.Bytes=seqBytes"],
     },
     "GluePrefixKeys": {"owner": ["C05"], "tool": "gluetr", "args": _prefix_keys()},
 })
